@@ -12,7 +12,7 @@ use serde_json::{json, Value};
 use std::collections::BTreeMap;
 use std::str::FromStr;
 
-#[derive(Clone, Debug, Deserialize, Serialize)]
+#[derive(Clone, Debug, Deserialize, Serialize, PartialEq)]
 pub struct Line {
     pub k: String,
     #[serde(default)]
@@ -401,6 +401,31 @@ fn run_one(i: usize, sc: &Scenario, seed: u64, tmp: &str, out: &mut Out) {
         }
         Err(e) => out.mism.push(mk("not_finite", "finite fields".into(), e)),
     }
+    // the model state does not depend on WHERE the mode line stands among the difficulty lines, and the model checker keeps one
+    // file per state: re-expand the order here (difficulty lines first and the mode last, and the other way round)
+    if sc.aspect == "diff" && sc.lines.iter().any(|l| l.k == "mode") && sc.lines.iter().any(|l| l.k == "diff") {
+        for mode_last in [true, false] {
+            let mut re: Vec<Line> = sc.lines.iter().filter(|l| (l.k == "mode") != mode_last).cloned().collect();
+            re.extend(sc.lines.iter().filter(|l| (l.k == "mode") == mode_last).cloned());
+            if re == sc.lines {
+                continue;
+            }
+            let bytes = render(&re, 0, salt);
+            out.decodes += 1;
+            match guarded(|| Beatmap::from_bytes(&bytes)) {
+                Ok(Ok(m)) => match project(&m) {
+                    Ok(got) => {
+                        if let Some(d) = compare(&sc.fin, &got) {
+                            out.mism.push(json!({"scenario_index": i, "what": "map (sections reordered)", "lines": re, "text": String::from_utf8_lossy(&bytes), "expected": d, "observed": d, "model_final": sc.fin}));
+                        }
+                    }
+                    Err(e) => out.mism.push(mk("not_finite", "finite fields".into(), e)),
+                },
+                Ok(Err(e)) => out.mism.push(mk("decode_error", "Ok".into(), e.to_string())),
+                Err(p) => out.mism.push(mk("panic", "no panic".into(), p)),
+            }
+        }
+    }
     // str and path must give equal maps
     let b = guarded(|| Beatmap::from_str(&text));
     out.decodes += 1;
@@ -559,6 +584,8 @@ fn project_any(map: &Beatmap, paired: bool) -> Value {
     for b in &map.breaks {
         chk(b.start_time);
         chk(b.end_time);
+        // a break never ends before it starts (documented clamp of the [Events] section)
+        neg_dur |= b.end_time < b.start_time;
     }
     for v in [map.hp as f64, map.cs as f64, map.od as f64, map.ar as f64, map.slider_multiplier, map.slider_tick_rate, map.stack_leniency as f64] {
         chk(v);
@@ -588,6 +615,25 @@ const TOKENS: [&str; 14] = [
 
 fn mutate(rng: &mut StdRng, text: &str) -> Vec<u8> {
     let mut lines: Vec<String> = text.lines().map(String::from).collect();
+    // every fourth mutation also carries break lines whose end lies before their start, and sections in an unusual order (the
+    // difficulty section before the general one, a second Mode line at the end)
+    if rng.gen_range(0..4) == 0 {
+        let at = lines.iter().position(|l| l.trim() == "[Events]").map_or(lines.len(), |i| i + 1);
+        if at == lines.len() {
+            lines.push("[Events]".into());
+        }
+        let at = at.min(lines.len());
+        lines.insert(at.min(lines.len()), "2,9000,6000".into());
+        lines.insert(at.min(lines.len()), "Break,20000,19999.5".into());
+        if rng.gen_bool(0.5) {
+            let cs = ["0", "18", "14", "-3"][rng.gen_range(0..4)];
+            let head = vec!["osu file format v14".to_string(), "[Difficulty]".into(), format!("CircleSize:{cs}"), "[General]".into(), format!("Mode: {}", [0, 3][rng.gen_range(0..2)])];
+            lines.retain(|l| !l.starts_with("osu file format") && !l.starts_with("CircleSize"));
+            lines.splice(0..0, head);
+            lines.push("[General]".into());
+            lines.push(format!("Mode: {}", [0, 3, 1][rng.gen_range(0..3)]));
+        }
+    }
     let n = lines.len().max(1);
     match rng.gen_range(0..9) {
         0 => {
